@@ -213,6 +213,18 @@ def install(e) -> None:
                                                           "MutableMapping": VConst(("class", "MutableMapping", {}))})})
     e.std_bindings["dict"] = VConst(("class", "dict", {}))
     e.std_bindings["list"] = VConst(("class", "list", {}))
+    def py_eq(it: Interp, a: VData, b: VData) -> VBool:
+        """Python `==` on configuration values: DefaultValue.__eq__ compares the wrapped value with the other side
+        (wrapped or not); dicts compare entry-wise with the same overloaded `==` (structural equality implies it;
+        otherwise unspecified here)."""
+        it.e.used("== on configuration values follows DefaultValue.__eq__ (default marker ignored); for two maps that are not "
+                  "structurally equal the result is left unspecified")
+        atom = lambda v: f"(ite ((_ is leaf) {v}) (lv {v}) (dv {v}))"  # noqa: E731
+        is_atom = lambda v: f"(or ((_ is leaf) {v}) ((_ is dflt) {v}))"  # noqa: E731
+        unk = it.ctx.fresh("Bool", "map_eq")
+        return VBool(f"(ite (and {is_atom(a.t)} {is_atom(b.t)}) (= {atom(a.t)} {atom(b.t)}) (ite (= {a.t} {b.t}) true (ite (and ((_ is mapv) {a.t}) ((_ is mapv) {b.t})) {unk} false)))")
+
+    e.eq_hooks["Val.eq"] = py_eq
     e.truthy_hooks["Val"] = lambda ctx, v: VBool(f"(vtruthy {v.t})")
     e.eq_hooks["Val.is"] = lambda it, a, b: VBool(Eq(a.t, b.t))
     e.eq_hooks["Val.isnone"] = lambda it, v: VBool(Eq(v.t, "(leaf anone)"))
